@@ -100,13 +100,15 @@ def main(run):
         return
     run.flavours_used.update(['tsan', 'asan-static'])
     q = run.tier == 'quick'
-    # (threads, iterations, mode) ; mode bit0 primitives, bit1 handshakes
+    # (threads, iterations, mode) ; mode bit0 primitives, bit1 handshakes, bit3 second primitive family
     sched = []
     if q:
         for T in (2, 8, 16):
             sched.append((exe_t, 'tsan', T, 4, 3, run.seed * 1000 + 17 + T))
         sched.append((exe_t, 'tsan', 16, 3, 1, run.seed * 1000 + 99))          # primitives only, all threads released together
         sched.append((exe_a, 'asan', 8, 4, 3, run.seed * 1000 + 500))
+        sched.append((exe_t, 'tsan', 16, 4, 8, run.seed * 1000 + 133))         # second primitive family, released together
+        sched.append((exe_a, 'asan', 8, 4, 8, run.seed * 1000 + 533))
     else:
         for rep in range(20):
             for T in (2, 4, 8, 16):
@@ -114,6 +116,11 @@ def main(run):
         for rep in range(6):
             for T in (4, 16):
                 sched.append((exe_a, 'asan', T, 16, 3, run.seed * 1000 + 500 + rep * 17 + T))
+        for rep in range(10):
+            for T in (4, 16):
+                sched.append((exe_t, 'tsan', T, 16, 8 if rep % 2 else 11, run.seed * 1000 + 700 + rep * 17 + T))
+        for rep in range(4):
+            sched.append((exe_a, 'asan', 16, 16, 11, run.seed * 1000 + 900 + rep * 17))
     orders = set()
     dedup = {}
     total_reports = 0
